@@ -113,6 +113,8 @@ type Val struct {
 	PFields []string // fields of the access path
 	IsType bool  // spec: a type name
 	TypeV types.Type
+	DerefOf *Val // spec environment: the variable is what this pointer points to (address-taken local)
+	WinArr, WinOff string // pointer made by a slice-to-array-pointer conversion: backing array and offset
 }
 
 type VC struct {
@@ -129,6 +131,7 @@ type VC struct {
 	discHavocs   []havocRec      // whole-heap havocs seen by the loop discovery pass in progress
 	preserveSelf map[string]bool // storages the function under verification promises to preserve
 	declLog  []string
+	arrElems map[string][]string // store chains built by arrChain (and their names) -> element terms
 	obls     []*Obligation
 	nfresh   int
 	tags     map[string]int
@@ -322,6 +325,9 @@ func (vc *VC) define(hint, sort, term string) string {
 		vc.push(fmt.Sprintf("(assert (= %s %s))", name, term))
 	default:
 		vc.push(fmt.Sprintf("(define-fun %s () %s %s)", name, sort, term))
+		if es, ok := vc.arrElems[term]; ok {
+			vc.arrElems[name] = es
+		}
 		if vc.macros == nil {
 			vc.macros = map[string]bool{}
 		}
